@@ -327,16 +327,59 @@ Radiation(vec, fn, a) ==
   ELSE GaussSum(NFromStr(a[1]), vec["vec_amp"], vec["vec_mean"], vec["vec_stdev"], 1)
 
 \* ------------------------------------------------------------------ ablation (not named by C01-C08: growth)
-\* only the exact fields (forms frozen from the pinned eval_exact_* bodies); the source terms have no documented system
-Ablation(par, fn, a) ==
+\* the exact fields (forms frozen from the pinned eval_exact_* bodies) and, for accuracy only, the source terms
+Ablation(par, fn, a, cb) ==
   LET C == Coords(a, 1)
       L == PN(par, "L")
       wav(amp, fr, kind) == JScale(PN(par, amp), Trig(kind, JScale(NDiv(NMul(PN(par, fr), NPi), L), C.x)))
       rC  == JAdd(JConst(PN(par, "rho_C_0")), wav("rho_C_x", "a_rho_C_x", "sin"))
       rC3 == JAdd(JConst(PN(par, "rho_C3_0")), wav("rho_C3_x", "a_rho_C3_x", "cos"))
-  IN  CASE fn = "exact_u" -> JV(JAdd(JConst(PN(par, "u_0")), wav("u_x", "a_ux", "sin")))
-        [] fn = "exact_t" -> JV(JAdd(JConst(PN(par, "T_0")), wav("T_x", "a_Tx", "cos")))
+      \* Source terms: there is no documented system to derive them from (the momentum source uses the density of an
+      \* N/N2 mixture, the pressure that of C/C3), so -- unlike everywhere else -- these are the forms of the pinned
+      \* eval_q_* bodies, written out once more.  They decide nothing about C01-C08; they give C09 (accuracy in both
+      \* precisions) and C10/C11 a 45-digit reference for this solution too.  source_rho_e is not transcribed.
+      U   == JAdd(JConst(PN(par, "u_0")), wav("u_x", "a_ux", "sin"))
+      T   == JAdd(JConst(PN(par, "T_0")), wav("T_x", "a_Tx", "cos"))
+      rN  == JAdd(JConst(PN(par, "rho_N_0")), wav("rho_N_x", "a_rho_N_x", "sin"))
+      rN2 == JAdd(JConst(PN(par, "rho_N2_0")), wav("rho_N2_x", "a_rho_N2_x", "cos"))
+      piL == NDiv(NPi, L)
+      arg(fr) == JScale(NMul(PN(par, fr), piL), C.x)
+      R   == PN(par, "R")  WC == PN(par, "W_C")  WC3 == PN(par, "W_C3")
+      \* k pi amp / L for amplitude amp with frequency fr
+      kap(amp, fr) == NMul(NMul(PN(par, fr), piL), PN(par, amp))
+      rho == JAdd(rC, rC3)
+      P   == JScale(R, JMul(T, JAdd(JScale(NDiv(N1, WC), rC), JScale(NDiv(N1, WC3), rC3))))
+      MF  == JDiv(rC3, rho)
+      MFE == JScale(PN(par, "A_C3Enc"), JDiv(JExp(JScale(NNeg(PN(par, "E_aC3nc")), JRecip(T))), P))
+      Mdot == JScale(NMul(NMul(NSqrtL(N2), Half), PN(par, "beta_C3")),
+                     JMul(JMul(JSqrt(JScale(NDiv(NDiv(PN(par, "k_B"), NPi), PN(par, "m_C3")), T)), JSub(MFE, MF)), rho))
+      Dd  == NSub(PN(par, "D_C"), PN(par, "D_C3"))
+  IN  CASE fn = "exact_u" -> JV(U)
+        [] fn = "exact_t" -> JV(T)
         [] fn = "exact_rho_C" -> JV(rC) [] fn = "exact_rho_C3" -> JV(rC3) [] fn = "exact_rho" -> JV(JAdd(rC, rC3))
+        [] fn = "source_rho_C"  -> JV(JScale(kap("rho_C_x", "a_rho_C_x"), JMul(U, JCos(arg("a_rho_C_x")))))
+        [] fn = "source_rho_C3" -> JV(JScale(NNeg(kap("rho_C3_x", "a_rho_C3_x")), JMul(U, JSin(arg("a_rho_C3_x")))))
+        [] fn = "source_C" -> N0
+        [] fn = "source_rho_u" ->
+             JV(JAdd(JAdd(JScale(NNeg(NDiv(NMul(kap("rho_C3_x", "a_rho_C3_x"), R), WC3)), JMul(T, JSin(arg("a_rho_C3_x")))),
+                          JScale(NDiv(NMul(kap("rho_C_x", "a_rho_C_x"), R), WC), JMul(T, JCos(arg("a_rho_C_x"))))),
+                     JAdd(JScale(NMul(NMul(NFromRat(4, 3), PN(par, "mu")), NMul(kap("u_x", "a_ux"), NMul(PN(par, "a_ux"), piL))), JSin(arg("a_ux"))),
+                          JScale(NMul(N2, kap("u_x", "a_ux")), JMul(JMul(JAdd(rN, rN2), U), JCos(arg("a_ux")))))))
+        [] fn = "source_e" ->
+             IF cb = <<>> THEN Undefined ELSE
+             LET Tn == JV(T) IN
+             NAdd(NSub(NSub(NMul(NMul(PN(par, "k"), kap("T_x", "a_Tx")), JV(JSin(arg("a_Tx")))),
+                            NMul(NMul(PN(par, "sigma"), PN(par, "epsilon")), NSq(NSq(Tn)))),
+                       NMul(JV(Mdot), Callback(cb, Tn))),
+                  NMul(PN(par, "alpha"), PN(par, "qr")))
+        [] fn = "source_C3" ->
+             LET cC == JCos(arg("a_rho_C_x")) sC3 == JSin(arg("a_rho_C3_x")) ir == JRecip(rho) IN
+             JV(JAdd(JAdd(JAdd(JScale(NMul(kap("rho_C_x", "a_rho_C_x"), PN(par, "D_C3")), JMul(JMul(rC3, cC), ir)),
+                               JScale(NMul(kap("rho_C3_x", "a_rho_C3_x"), PN(par, "D_C3")), JMul(JMul(rC, sC3), ir))),
+                          JAdd(JScale(NMul(kap("rho_C_x", "a_rho_C_x"), Dd), JMul(JMul(JSq(rC3), cC), JSq(ir))),
+                               JScale(NMul(kap("rho_C3_x", "a_rho_C3_x"), Dd), JMul(JMul(JMul(rC, rC3), sC3), JSq(ir))))),
+                     JMul(Mdot, JSub(MF, JConst(N1)))))
+        [] fn = "source_boundary" -> JV(JSub(U, JDiv(Mdot, rho)))
         [] OTHER -> Undefined
 
 \* ------------------------------------------------------------------ dispatch
@@ -435,7 +478,7 @@ Expected(sol, par, vec, fn, sig, args, cb, variant) ==
     [] sol = "cp_normal" -> IF Len(vec["vec_data"]) = 0 THEN Undefined ELSE CpNormal(par, vec, fn, IF Len(a) > 0 THEN a ELSE <<"0">>, di)
     [] sol = "radiation_integrated_intensity" ->
          IF \E k \in DOMAIN vec : vec[k] = <<"$unk">> THEN Undefined ELSE Radiation(vec, fn, a)
-    [] sol = "navierstokes_ablation_1d_steady" -> IF sig = "S" THEN Ablation(par, fn, a) ELSE Undefined
+    [] sol = "navierstokes_ablation_1d_steady" -> IF sig \in {"S", "SF"} THEN Ablation(par, fn, a, cb) ELSE Undefined
     [] sol = "laplace_2d" ->
          IF fn = "exact_phi" THEN JV(LaplacePhi(par, C))
          ELSE IF fn = "source_f" THEN Laplacian(LaplacePhi(par, C)) ELSE Undefined
